@@ -55,6 +55,16 @@ CHECKS['C05'] = dict(
          'convergence towards the numerical solution; tolerances and observed maxima are in the evidence.',
     ref='3/C05')
 
+CHECKS['C06'] = dict(
+    technique='runtime monitor: recorded Roadm crossings (propagated and directly driven) vs independent equaliser '
+              'reading the configured documents; policy-uniqueness loads',
+    text='Every ROADM crossing observed is compared per channel with min(target+offset, input-path loss) where the '
+         'target is resolved independently from the egress degree / node / library configuration; P_out<=P_in is '
+         'asserted on every crossing; 0..3 policies at library and topology level are loaded. Exploration.',
+    note='Trusts the independent target/impairment resolution written from docs/json.rst; channel centres inside the '
+         'impairment profile ranges; 1e-9 dB.',
+    ref='3/C06')
+
 NOT_APPLICABLE = {
 }
 
